@@ -172,6 +172,8 @@ func classify(err error) string {
 	}
 	var ce wsutil.ClosedError
 	if errors.As(err, &ce) {
+		// what was reported must stay the peer's code and reason whatever the pooled buffers are used for next
+		poolChurn()
 		return fmt.Sprintf("closed:%d:%s", ce.Code, hx([]byte(ce.Reason)))
 	}
 	return "other:" + strings.ReplaceAll(err.Error(), " ", "_")
